@@ -7,7 +7,7 @@ CONSTANTS
   NONE = NONE
   PoolSize = 1
   TxMode = TRUE
-  Dev = {"set_in_tx_not_marked"}
+  Dev = {"copydone_single_recv"}
   MaxMsgs = 4
   Depth = 7
   ProbesLast = TRUE
